@@ -5,6 +5,7 @@ from .. import core, sim
 from .common import World, Std, cuts, split_at
 from . import ops
 from .inter import h_interleave
+from .c14 import h_after_failed_open
 
 PROPERTY = 'C04'
 ASSUMPTIONS = [
@@ -72,7 +73,7 @@ def h_ops(ctx, mods, shape):
     ctx.check(len(mon.streams) >= len(shape['ops']), 'every operation opened a stream')
 
 
-HARNESSES = {'ops': h_ops, 'interleave': h_interleave}
+HARNESSES = {'ops': h_ops, 'interleave': h_interleave, 'after_failed_open': h_after_failed_open}
 
 
 def shapes(tier, seed):
@@ -106,6 +107,9 @@ def shapes(tier, seed):
         # protocol.txt ordering only: a reply may even precede the OKAY for the request that caused it
         for spec in (['pull', {'cb': 'rec'}], ['pull', {}], 'stat', 'list', ['push', {'size': 5000}]):
             out.append({'h': 'ops', 'impl': impl, 'maxdata': 4096, 'ops': [spec], 'cuts': 1, 'reorder': True, 'spec_order': True, 'max_paths': 200000})
+        # OPEN carries a FRESH id: not the id of a stream that was opened but never closed (its OPEN was not answered in time)
+        for kind in ('silence', 'eof', 'foreign'):
+            out.append({'h': 'after_failed_open', 'impl': impl, 'kind': kind, 'counter': None})
         # several streams open at once (generators stepped alternately): every interleaving, device order free
         out.append({'h': 'interleave', 'judge_results': False, 'impl': impl, 'gens': [[1, 1], [1]], 'pick': True})
         out.append({'h': 'interleave', 'judge_results': False, 'impl': impl, 'gens': [[1, 1], [1, 1]], 'pick': False})
